@@ -248,6 +248,30 @@ Proof.
   destruct ((TEN_MINUTES_US <? up_time (rb_report k d)) || (TEN_MINUTES_US <? down_time (rb_report k d))); reflexivity.
 Qed.
 
+Lemma rb_long_facts up k d1 t d2 d' :
+  only up d1 -> d2 = set_relay k d1 RELAY_OFF false false ->
+  d' = upd_times d2 (up_time d2) (down_time d2) (last_time d2) t ->
+  ext d1 d' /\ up_time d' = up_time d1 /\ down_time d' = down_time d1 /\
+  last_time d' = last_time d1 /\ now d' = now d1 /\ last_comm d' = t /\ ~ nofall up (outs d').
+Proof.
+  intros O1 E2 E'.
+  pose proof (sub_set_relay up k d1 RELAY_OFF false false) as S.
+  assert (NFF : ~ nofall up (outs (set_relay k d1 RELAY_OFF false false))) by (destruct O1 as [P _]; exact (set_relay_off_falls up k d1 false P)).
+  rewrite <- E2 in S, NFF. clear E2.
+  destruct (sub_log up _ _ S) as [n L].
+  pose proof (sub_ut up _ _ S). pose proof (sub_dt up _ _ S). pose proof (sub_lt up _ _ S). pose proof (sub_now up _ _ S).
+  subst d'. unfold ext. cbn [outs C10.Model.up_time C10.Model.down_time C10.Model.last_time C10.Model.last_comm C10.Model.now upd_times].
+  split; [exists n; exact L|]. repeat split; auto.
+Qed.
+
+Lemma rb_short_facts up d1 t d' :
+  only up d1 -> d' = upd_times d1 (up_time d1) (down_time d1) (last_time d1) t ->
+  outs d' = outs d1 /\ up_time d' = up_time d1 /\ down_time d' = down_time d1 /\
+  last_time d' = last_time d1 /\ now d' = now d1 /\ last_comm d' = t /\ only up d' /\ pos d' = pos d1 /\ tilt d' = tilt d1 /\ start_time d' = start_time d1.
+Proof.
+  intros [P Q] ->. unfold only, powered in *. fld. repeat split; auto.
+Qed.
+
 Lemma report_block_facts up k d t d' :
   only up d -> d' = report_block k d t ->
   ext d d' /\ up_time d' = up_time d /\ down_time d' = down_time d /\ last_time d' = last_time d /\ now d' = now d /\
@@ -260,27 +284,19 @@ Proof.
   2:{ rewrite (rb_not_due k d t Edue) in E'. subst d'. split; [apply ext_refl|]. repeat split; auto; try apply O. intros [X _]; discriminate. }
   rewrite (rb_due k d t Edue) in E'.
   pose proof (rb_report_facts up k d (rb_report k d) eq_refl) as F.
-  set (d1 := rb_report k d) in *. clearbody d1.
+  remember (rb_report k d) as d1 eqn:E1. clear E1.
   destruct F as ([n1 [L1 NF1]] & Fu & Fd & F1 & F2 & F3 & F4 & F5 & F6 & F7 & F8).
   assert (O1 : only up d1) by (destruct O as [P Q]; unfold only, powered in *; destruct up; cbn [negb] in *; rewrite Fu, Fd; auto).
-  rewrite F1, F2 in E'.
-  destruct ((TEN_MINUTES_US <? up_time d) || (TEN_MINUTES_US <? down_time d)) eqn:Elong.
-  - pose proof (sub_set_relay up k d1 RELAY_OFF false false) as S.
-    assert (NFF : ~ nofall up (outs (set_relay k d1 RELAY_OFF false false))) by (destruct O1 as [P _]; exact (set_relay_off_falls up k d1 false P)).
-    set (d2 := set_relay k d1 RELAY_OFF false false) in *. clearbody d2.
-    destruct (sub_log up _ _ S) as [n L].
-    pose proof (sub_ut up _ _ S). pose proof (sub_dt up _ _ S). pose proof (sub_lt up _ _ S). pose proof (sub_now up _ _ S).
-    subst d'. unfold ext. cbn [outs C10.Model.up_time C10.Model.down_time C10.Model.last_time C10.Model.last_comm C10.Model.now upd_times].
+  destruct ((TEN_MINUTES_US <? up_time d1) || (TEN_MINUTES_US <? down_time d1)) eqn:Elong.
+  - destruct (rb_long_facts up k d1 t _ d' O1 eq_refl E') as ([n L] & A1 & A2 & A3 & A4 & A5 & A6).
     split; [exists (n ++ n1); rewrite L, L1, app_assoc; reflexivity|].
-    split; [congruence|]. split; [congruence|]. split; [congruence|]. split; [congruence|]. split; [reflexivity|].
-    intros NF. exfalso. exact (NFF NF).
-  - subst d'. unfold ext. cbn [outs C10.Model.up_time C10.Model.down_time C10.Model.last_time C10.Model.last_comm C10.Model.now C10.Model.pos C10.Model.tilt start_time upd_times].
-    split; [exists n1; exact L1|].
-    split; [congruence|]. split; [congruence|]. split; [congruence|]. split; [congruence|]. split; [reflexivity|].
-    intros NF. split.
-    { destruct O1 as [P Q]. split; unfold powered in *; destruct up; cbn [negb up_on down_on upd_times] in *; auto. }
-    split; [congruence|]. split; [congruence|]. split; [congruence|].
-    intros [_ X]. apply orb_false_iff in Elong. destruct Elong as [A B]. apply Z.ltb_ge in A. apply Z.ltb_ge in B. lia.
+    split; [congruence|]. split; [congruence|]. split; [congruence|]. split; [congruence|]. split; [exact A5|].
+    intros NF. exfalso. exact (A6 NF).
+  - destruct (rb_short_facts up d1 t d' O1 E') as (B0 & B1 & B2 & B3 & B4 & B5 & B6 & B7 & B8 & B9).
+    split; [exists n1; rewrite B0; exact L1|].
+    split; [congruence|]. split; [congruence|]. split; [congruence|]. split; [congruence|]. split; [exact B5|].
+    intros NF. split; [exact B6|]. split; [congruence|]. split; [congruence|]. split; [congruence|].
+    intros [_ X]. rewrite F1, F2 in Elong. apply orb_false_iff in Elong. destruct Elong as [A B]. apply Z.ltb_ge in A. apply Z.ltb_ge in B. lia.
 Qed.
 
 End Callback.
